@@ -261,25 +261,35 @@ example :
 example : Sane ⟨[.chunk [89, 81, 61, 61, 13, 10]], [.ok, .err 5]⟩ :=
   ⟨by intro e he; simp at he; omega, by intro e he; simp at he⟩
 
-/-- `authname` is not clean: an accepted PLAIN user name may contain CR and LF (it is later copied
-into the `Received:` line — property C02).  Witness: `AUTH PLAIN AGENCmIAcA==`, user `a\r\nb`,
-password `p`. -/
-theorem authname_may_contain_crlf :
+/-- **The recorded identity is clean.**  (Since the repair of the defect found by C02: an accepted
+user name could contain CR and LF and was copied into the `Received:` line.)  Whenever an AUTH
+command changes the identity, the new `authname` contains no control character (no octet below 0x20,
+no 0x7f): in particular no CR, LF or NUL, so what checkpassword read as the user is the whole name. -/
+theorem authname_clean (st : State) (linein : List Byte) (bk : Backend) (i r : In)
+    (x : Int) (st' : State) (ev : List Ev) (hs : Sane i)
+    (h : smtpAuth st linein bk i = .ok (x, st') r ev) (hch : st'.authname ≠ st.authname) :
+    ∀ c ∈ st'.authname, ¬ c < 32 ∧ c ≠ 127 := by
+  obtain ⟨_, _, _, _, _, pass, _, hc, _⟩ := auth_only_if_backend_accepts st linein bk i r x st' ev hs h hch
+  have hcl := hc.clean
+  intro c hcm
+  unfold usernameInvalid at hcl
+  have := (List.any_eq_false.mp hcl) c hcm
+  simp only [Bool.or_eq_true, decide_eq_true_eq, beq_iff_eq, not_or] at this
+  exact this
+
+/-- the former witnesses are refused now: `AUTH PLAIN AGENCmIAcA==` (user `a CR LF b`) and
+`AUTH LOGIN YQBi` (user `a NUL b`) do not authenticate although the program would accept -/
+example :
     (match smtpAuth ⟨[], true, false, false, false⟩
         [65, 85, 84, 72, 32, 80, 76, 65, 73, 78, 32, 65, 71, 69, 78, 67, 109, 73, 65, 99, 65, 61, 61]
         ⟨none, none, false, none, false, .exited 0⟩ ⟨[], []⟩ with
-      | .ok (x, st') _ _ => x == 0 && st'.authname == [97, 13, 10, 98]
+      | .ok (x, st') _ _ => x != 0 && st'.authname == []
       | _ => false) = true := by decide
-
-/-- LOGIN decodes user name and password separately, so (unlike PLAIN, `plain_fields_spec`) either
-may contain NUL bytes; checkpassword then sees the fields shifted.  Witness: `AUTH LOGIN YQBi`
-(user `a\0b`), password `p`: the program reads `a NUL b NUL p NUL NUL`, i.e. user `a`, password `b`,
-and the recorded identity is the three bytes `a\0b`. -/
-theorem login_fields_may_contain_nul :
+example :
     (match smtpAuth ⟨[], true, false, false, false⟩
         [65, 85, 84, 72, 32, 76, 79, 71, 73, 78, 32, 89, 81, 66, 105]
         ⟨none, none, false, none, false, .exited 0⟩ ⟨[.chunk [99, 65, 61, 61, 13, 10]], []⟩ with
-      | .ok (x, st') _ ev => x == 0 && st'.authname == [97, 0, 98] && childSaw ev == some [97, 0, 98, 0, 112, 0, 0]
+      | .ok (x, st') _ _ => x != 0 && st'.authname == []
       | _ => false) = true := by decide
 
 
